@@ -26,4 +26,10 @@ example : caOf (s.getitem (.tuple [Item.all, Item.all, .int 1])) = some none := 
 example : (cubesOf (s.explode 0)) = [0, 0, 1, 1, 1, 2] := by decide
 example : countEllipsis [Item.all, .ellipsis, .int 0] = 1 := by decide
 
+-- shape of a ragged sequence whose first and last cubes have equal lengths (seed C11-d): the tuple of all
+-- lengths, and the cube-like length is their sum
+example : ({ shapes := [[2, 3], [4, 3], [2, 3]], commonAxis := some 0 } : Seq).shape = [.int 3, .ragged [2, 4, 2], .int 3] ∧
+    (({ shapes := [[2, 3], [4, 3], [2, 3]], commonAxis := some 0 } : Seq).cubeLikeShape).toOption = some [8, 3] ∧
+    ({ shapes := [[2, 3], [2, 3]], commonAxis := some 0 } : Seq).shape = [.int 2, .int 2, .int 3] := by decide
+
 end Ndcube.C11.Witness
